@@ -53,7 +53,7 @@ class Path(object):
 
 class Ctx(object):
     def __init__(self, pre, max_decisions=300, timeout_ms=20000, trig=None, check_div0=True,
-                 track_sites=False, max_paths=5000, opaque_mul=False):
+                 track_sites=False, max_paths=5000, opaque_mul=False, fresh_div=False):
         self.pre = list(pre) if isinstance(pre, (list, tuple)) else [pre]
         self.max_decisions = max_decisions
         self.timeout_ms = timeout_ms
@@ -62,6 +62,7 @@ class Ctx(object):
         self.track_sites = track_sites
         self.max_paths = max_paths
         self.opaque_mul = opaque_mul
+        self.fresh_div = fresh_div
         self.nq = 0
         self.t_solver = 0.0
         self.unknown_feas = 0
@@ -223,13 +224,15 @@ def explore(fn, pre, **kw):
     return ctx, paths
 
 
-def check(ctx, path, bad, timeout_ms=None, extra=()):
-    """decide  pre /\\ pc /\\ axioms /\\ bad ;  returns ('unsat'|'sat'|'unknown', model_or_None, seconds)"""
+def check(ctx, path, bad, timeout_ms=None, extra=(), use_pc=True):
+    """decide  pre /\\ pc /\\ axioms /\\ bad ;  returns ('unsat'|'sat'|'unknown', model_or_None, seconds).
+    use_pc=False drops the branch conditions (only definitional axioms stay): a stronger claim, used for identities
+    that do not depend on which branch was taken"""
     s = z3.Solver()
     s.set('timeout', timeout_ms or ctx.timeout_ms)
     for c in ctx.pre:
         s.add(c)
-    for c in path.conds():
+    for c in (path.conds() if use_pc else path.axioms):
         s.add(c)
     for c in extra:
         s.add(c)
@@ -541,6 +544,12 @@ class Num(object):
                 ang = trig.ang_scale(s.ang, Fr(1) / c)
             return Num('r', e=s.e / z3.RealVal(str(c)), ty=float, ang=ang)
         _div0_check(o)
+        if CUR is not None and CUR.fresh_div:
+            # quotient as a fresh real tied to its operands by a polynomial equation (no division term in queries)
+            qv = z3.Real(CUR.fresh_name('quot'))
+            den = o.re()
+            CUR.assume(z3.And(den != 0, qv * den == s.re()))
+            return Num('r', e=qv, ty=float)
         return Num('r', e=s.re() / o.re(), ty=float)
 
     def __rtruediv__(s, o):
